@@ -22,7 +22,7 @@ IntSort = z3.IntSort()
 
 
 def is_sym(x) -> bool:
-    return isinstance(x, (SInt, SBool, SBytes, SSeq, SObj, SReal, SOpt))
+    return isinstance(x, (SInt, SBool, SBytes, SSeq, SObj, SReal, SOpt, SIncSeq))
 
 
 def tint(x):
@@ -912,6 +912,23 @@ class SBytes:
         return bytes(out)
 
     # -- a few methods used by the verified code -------------------------------
+    def find(self, sub, start=0, end=None):
+        """ASSUMED bytes.find (positional part only): the result r is -1 or start <= r <= len - len(sub);
+        r == -1 is always possible symbolically (content is not modelled for ropes)"""
+        from . import stubs
+
+        stubs.used("bytes.find(sub, start): result is -1 or start <= r <= len(self) - len(sub) (content not modelled)")
+        if end is not None:
+            raise Unsupported("find with end")
+        k = blen(sub)
+        n = tint(self.length())
+        r = fresh_int("find", register=False)
+        c = ctx()
+        st = tint(start)
+        st = z3.If(st < 0, z3.If(st + n < 0, 0, st + n), st)
+        c.add(z3.Or(r.t == -1, z3.And(r.t >= st, r.t <= n - tint(k))))
+        return r
+
     def removesuffix(self, suffix):
         suffix = bytes(suffix)
         k = len(suffix)
@@ -963,6 +980,52 @@ class SSeq:
         self.head: list = []  # appendleft-ed elements (in order, leftmost first)
         self.nonempty = nonempty_elems
         self.kind = kind
+        # optional ghost provenance of the summarised part: its concatenation is
+        # prov_src[prov_lo : prov_lo + total] (consecutive pieces of one stream)
+        self.prov_src = None
+        self.prov_lo = None
+
+    def with_prov(self, src, lo):
+        self.prov_src = src
+        self.prov_lo = tint(lo)
+        return self
+
+    def first_len(self):
+        """ghost: length of element 0 (caller guarantees the sequence is non-empty).  For the summarised
+        part it is a variable tied to the element that popleft()/[0] will later materialise."""
+        if self.head:
+            return blen(self.head[0])
+        k = getattr(self, "_first_len_ghost", None)
+        if k is None:
+            k = z3.FreshInt(f"{self.name}.first_len")
+            self._first_len_ghost = k
+            c = ctx()
+            lo = 1 if self.nonempty else 0
+            c.add(z3.Implies(self.count > 0, z3.And(k >= lo, k <= self.total - lo * (self.count - 1))))
+            c.add(z3.Implies(self.count == 1, k == self.total))
+        if self.tail:
+            return Ite(mk_bool(self.count > 0), mk_int(k), blen(self.tail[0]))
+        return mk_int(k)
+
+    def covers(self, src, lo, hi):
+        """term: the concatenation of all elements is exactly src[lo:hi] by provenance"""
+        cur = tint(lo)
+        conj = []
+        for e in self.head:
+            n = tint(blen(e))
+            conj.append(tbool(SBytes.of(e).is_slice_of(src, cur, cur + n)))
+            cur = cur + n
+        if self.prov_src is src:
+            conj.append(z3.Or(self.total == 0, self.prov_lo == cur))
+        else:
+            conj.append(self.total == 0)
+        cur = cur + self.total
+        for e in self.tail:
+            n = tint(blen(e))
+            conj.append(tbool(SBytes.of(e).is_slice_of(src, cur, cur + n)))
+            cur = cur + n
+        conj.append(cur == tint(hi))
+        return And(*conj)
 
     @staticmethod
     def fresh(name, nonempty_elems=False, kind=list):
@@ -1015,7 +1078,18 @@ class SSeq:
     def _take_summarised(self, label):
         """remove one element from the summarised part (front); caller guarantees count > 0"""
         c = ctx()
-        e = SBytes.fresh(f"{self.name}.elem", register=False)
+        k = getattr(self, "_first_len_ghost", None)
+        self._first_len_ghost = None
+        if self.prov_src is not None:
+            if k is None:
+                k = z3.FreshInt(f"{self.name}.elem.len")
+            c.add(k >= 0)
+            e = SBytes([Seg(self.prov_src, self.prov_lo, k)])
+            self.prov_lo = z3.simplify(self.prov_lo + k)
+        else:
+            e = SBytes.fresh(f"{self.name}.elem", register=False)
+            if k is not None:
+                c.add(tint(e.length()) == k)
         n = tint(e.length())
         newc = z3.FreshInt(f"{self.name}.count")
         newt = z3.FreshInt(f"{self.name}.total")
@@ -1075,9 +1149,12 @@ class SSeq:
         if sep not in (b"", bytearray()):
             raise Unsupported("join with separator")
         c = ctx()
-        s = Src(c.fresh_name(f"{self.name}.joined"), self.total)
         segs = [x for e in self.head for x in SBytes.of(e).segs]
-        segs.append(Seg(s, z3.IntVal(0), self.total))
+        if self.prov_src is not None:
+            segs.append(Seg(self.prov_src, self.prov_lo, self.total))
+        else:
+            s = Src(c.fresh_name(f"{self.name}.joined"), self.total)
+            segs.append(Seg(s, z3.IntVal(0), self.total))
         for e in self.tail:
             segs += SBytes.of(e).segs
         return SBytes(segs, bytes)
@@ -1099,9 +1176,127 @@ class SSeq:
         return [cz(e, m) for e in self.head] + out + [cz(e, m) for e in self.tail]
 
 
+class SIncSeq:
+    """deque of strictly increasing ints (e.g. chunk split offsets): symbolic prefix summarised by
+    (count, first, last) + concrete appended tail"""
+
+    def __init__(self, name, count, first, last):
+        self.name = name
+        self.count = count
+        self.first = first
+        self.last = last
+        self.tail: list = []
+
+    @staticmethod
+    def fresh(name):
+        c = ctx()
+        name = c.fresh_name(name)
+        v = SIncSeq(name, z3.Int(f"{name}.count"), z3.Int(f"{name}.first"), z3.Int(f"{name}.last"))
+        v._wf()
+        c.inputs[name] = v
+        return v
+
+    def _wf(self):
+        c = ctx()
+        c.add(self.count >= 0)
+        c.add(z3.Implies(self.count == 1, self.first == self.last))
+        # strictly increasing ints: count elements between first and last
+        c.add(z3.Implies(self.count >= 2, self.last - self.first >= self.count - 1))
+
+    def length(self):
+        return mk_int(self.count + len(self.tail))
+
+    sym_len = length
+
+    def __bool__(self):
+        n = self.length()
+        return n != 0 if isinstance(n, int) else ctx().branch(n.t != 0)
+
+    def min_term(self):
+        """first element (caller guarantees non-empty)"""
+        if self.tail:
+            return Ite(mk_bool(self.count > 0), mk_int(self.first), self.tail[0])
+        return mk_int(self.first)
+
+    def max_term(self):
+        if self.tail:
+            return self.tail[-1]
+        return mk_int(self.last)
+
+    def all_between(self, lo, hi):
+        """term: every element e satisfies lo <= e <= hi (uses monotonicity)"""
+        conj = [z3.Implies(self.count > 0, z3.And(tint(lo) <= self.first, self.last <= tint(hi)))]
+        for e in self.tail:
+            conj.append(z3.And(tint(lo) <= tint(e), tint(e) <= tint(hi)))
+        return And(*conj)
+
+    def increasing(self):
+        conj = []
+        prev = None
+        for e in self.tail:
+            if prev is None:
+                conj.append(z3.Implies(self.count > 0, self.last < tint(e)))
+            else:
+                conj.append(tint(prev) < tint(e))
+            prev = e
+        return And(*conj)
+
+    def append(self, x):
+        self.tail.append(x)
+
+    def popleft(self):
+        c = ctx()
+        if c.branch(self.count > 0, f"{self.name}.has_summarised"):
+            v = mk_int(self.first)
+            nc = z3.FreshInt(f"{self.name}.count")
+            nf = z3.FreshInt(f"{self.name}.first")
+            c.add(nc == self.count - 1)
+            c.add(z3.Implies(nc > 0, z3.And(nf > self.first, nf <= self.last)))
+            old_first = self.first
+            self.count, self.first = nc, nf
+            self._wf()
+            return v
+        if self.tail:
+            return self.tail.pop(0)
+        raise IndexError("pop from an empty deque")
+
+    def __getitem__(self, i):
+        c = ctx()
+        if isinstance(i, int) and i == 0:
+            if c.branch(self.count > 0, f"{self.name}.has_summarised"):
+                return mk_int(self.first)
+            if self.tail:
+                return self.tail[0]
+            raise IndexError("deque index out of range")
+        if isinstance(i, int) and i == -1:
+            if self.tail:
+                return self.tail[-1]
+            if c.branch(self.count > 0, f"{self.name}.has_summarised"):
+                return mk_int(self.last)
+            raise IndexError("deque index out of range")
+        raise Unsupported(f"SIncSeq index {i!r}")
+
+    sym_getitem = __getitem__
+
+    def clear(self):
+        self.count = z3.IntVal(0)
+        self.tail = []
+
+    def concretize(self, m):
+        from .core import concretize as cz
+
+        cnt = m.eval(self.count, model_completion=True).as_long()
+        f = m.eval(self.first, model_completion=True).as_long()
+        l = m.eval(self.last, model_completion=True).as_long()
+        pre = [] if cnt <= 0 else [f] if cnt == 1 else [f + k for k in range(cnt - 1)] + [l]
+        return pre + [cz(e, m) for e in self.tail]
+
+
 def blen(x):
-    if isinstance(x, (SBytes, SSeq)):
+    if isinstance(x, (SBytes, SSeq, SIncSeq)):
         return x.length()
+    if hasattr(x, "sym_len"):
+        return x.sym_len()
     return len(x)
 
 
